@@ -9,7 +9,8 @@ Families (each bounded-exhaustive, bounds in the evidence `rule`):
   str   string literals, prefixes {'',u8,u,U,L}: same escape alphabet (with every follower class that must not be
         absorbed into the escape), object bytes / sizeof / element type; pointer form and static-array form.
   cat   adjacent literal concatenation: every prefix pair and triple that 6.4.5p5 defines (same prefix, prefix+none).
-  flt   floating constants: the suffix selects the type (values are C02's business).
+  flt   floating constants: the suffix selects the type (values are C02's business); pp-number boundaries (0xf+1 vs 0xe+1).
+  hdr   L / u / U literals have the types wchar_t / char16_t / char32_t of the implementation's own <stddef.h> / <uchar.h>.
   uwb   white box: the tree's unicode.c #included into harness/c11_unicode.c: encode_utf8 / decode_utf8 for all
         1 112 064 scalar values against the UTF-8 definition; is_ident1 / is_ident2 against Annex D (models/c11_literal).
   ucc   every scalar value through the real compiler: raw UTF-8 inside string literals of each prefix, as character
@@ -950,6 +951,65 @@ def ucc_bisect(ctx, kind, prefix, chunks):
 
 
 # =====================================================================================================================
+#  hdr: the types the standard names for prefixed literals are the implementation's own typedefs
+# =====================================================================================================================
+HDR_UNITS = [
+    ("wchar_t-of-stddef.h-vs-L-literals", "#include <stddef.h>\n",
+     ["_Generic(L'a', wchar_t:1, default:0)", "_Generic(L\"a\"[0], wchar_t:1, default:0)", "_Generic(&L\"a\"[0], wchar_t *:1, default:0)",
+      "sizeof(wchar_t) == sizeof(L'a')", "((wchar_t)-1 < 0) == ((__typeof__(L'a'))-1 < 0)",
+      "((wchar_t)-1 < 0) == ((__typeof__(L\"a\"[0]))-1 < 0)"]),
+    ("char16_t-char32_t-of-uchar.h-vs-u-U-literals", "#include <uchar.h>\n",
+     ["_Generic(u'a', char16_t:1, default:0)", "_Generic(U'a', char32_t:1, default:0)", "_Generic(u\"a\"[0], char16_t:1, default:0)",
+      "_Generic(U\"a\"[0], char32_t:1, default:0)", "sizeof(char16_t) == sizeof(u'a')", "sizeof(char32_t) == sizeof(U'a')"]),
+    ("size_t-vs-sizeof-literal", "#include <stddef.h>\n",
+     ["_Generic(sizeof(\"a\"), size_t:1, default:0)", "_Generic(sizeof('a'), size_t:1, default:0)", "_Generic(sizeof(1), size_t:1, default:0)",
+      "('\\377' < 0) == ((char)-1 < 0)", "'\\377' == (char)255",
+      "L'\\xffffffff' == (wchar_t)0xffffffff"]),
+]
+
+
+def run_hdr(ctx):
+    """6.4.4.4p11 / 6.4.5p6: L'x' and the elements of L"..." have type wchar_t, u/U literals char16_t / char32_t, *as defined by the
+    implementation's own headers*.  Judged only when the same unit gives all-ones under gcc with gcc's headers (sanity of the probe)
+    and chibicc can compile the header at all."""
+    wd = ctx.mkdir("hdr")
+    n = 0
+    for name, inc, probes in HDR_UNITS:
+        src = (inc + twin.PRELUDE + "struct VRow { const void *p; unsigned long n; long v[6]; };\n"
+               "static int FN(t)[] = { %s };\n" % ",\n  ".join(probes) +
+               "struct VRow FN(rows)[] = { { FN(t), sizeof(FN(t)) } };\nunsigned long FN(nrows) = 1, FN(nfill) = 0;\nvoid FN(fill)(long *o) {}\n")
+        exp = b"".join(struct.pack("<i", 1) for _ in probes)
+        rst, rout = _ref_dump(wd, "h", src.encode())
+        if rst != "ok" or split_dump(rout)[0][1] != exp:
+            ctx.cover(ref_rejected=1)
+            continue
+        # does the header alone compile?  (a libc header chibicc cannot parse is not this property's business)
+        st0, _ = _cc_dump(ctx.chibicc, wd, "h0", (inc + twin.PRELUDE + "struct VRow { const void *p; unsigned long n; long v[6]; };\n"
+                                                  "struct VRow FN(rows)[1]; unsigned long FN(nrows) = 0, FN(nfill) = 0; void FN(fill)(long *o) {}\n").encode())
+        if st0 != "ok":
+            ctx.cover(hdr_header_not_compilable=1)
+            continue
+        st, out = _cc_dump(ctx.chibicc, wd, "h", src.encode())
+        if st == "timeout":
+            continue
+        if st in ("harness", "drv-crash"):
+            raise core.HarnessError("hdr unit %s: %s %s" % (name, st, out))
+        n += len(probes)
+        if st == "cc-fail":
+            ctx.violation("C11|hdr|%s|rejected" % name, "probe unit rejected: %s" % out[-200:], files={"unit.c": src}, replay=REJECT_REPLAY)
+            continue
+        got = split_dump(out)[0][1]
+        if got != exp:
+            vals = struct.unpack("<%di" % (len(got) // 4), got) if len(got) % 4 == 0 else ()
+            failing = [p for p, v in zip(probes, vals) if v != 1]
+            ctx.violation("C11|hdr|%s|type-mismatch" % name,
+                          "with the implementation's own headers these are not 1: %s" % "; ".join(failing),
+                          files={"unit.c": src, "c11_drv.c": driver_src(), "expected.bin": struct.pack("<Q", len(exp)) + exp}, replay=UCC_REPLAY)
+    ctx.cover(hdr_probes=n)
+    return n
+
+
+# =====================================================================================================================
 #  ident: Annex D characters inside identifiers through the compiler
 # =====================================================================================================================
 def ident_cps(tier, pos):
@@ -1318,6 +1378,7 @@ def run(ctx):
     if "twin" in parts:
         n, j = run_twin_families(ctx); ev += n; nontriv += j
         n = run_cat_constraint(ctx); ev += n; nontriv += n
+        n = run_hdr(ctx); ev += n; nontriv += n
     if "src" in parts and not ctx.out_of_time(reserve=60):
         n = run_src(ctx); ev += n; nontriv += n
     if "ident" in parts and not ctx.out_of_time(reserve=60):
